@@ -19,6 +19,8 @@ import (
 	ethcommon "github.com/ethereum/go-ethereum/common"
 	ethtypes "github.com/ethereum/go-ethereum/core/types"
 	ethcrypto "github.com/ethereum/go-ethereum/crypto"
+	"github.com/ethereum/go-ethereum/crypto/kzg4844"
+	"github.com/holiman/uint256"
 	ctypes "github.com/palomachain/paloma/v2/x/consensus/types"
 	valsettypes "github.com/palomachain/paloma/v2/x/valset/types"
 	"github.com/palomachain/paloma/v2/zzverif/world"
@@ -317,18 +319,42 @@ type txOpts struct {
 	Nonce   uint64
 	ChainID int64
 	Signer  *world.Val
-	Legacy  bool
+	Env     string // "" / "dynamic-fee", "legacy", "access-list", "blob", "blob-with-sidecar"
 }
 
+// buildTx signs the remote transaction in the requested envelope. "blob" and
+// "blob-with-sidecar" are the two encodings go-ethereum's UnmarshalBinary accepts
+// for one and the same EIP-4844 transaction (canonical, and the network form
+// that carries the blob sidecar): same hash, different bytes.
 func buildTx(data []byte, o txOpts) *ethtypes.Transaction {
 	cid := big.NewInt(o.ChainID)
 	var inner ethtypes.TxData
-	if o.Legacy {
-		inner = &ethtypes.LegacyTx{Nonce: o.Nonce, GasPrice: big.NewInt(30_000_000_000), Gas: 3_000_000, To: o.To, Value: new(big.Int), Data: data}
-	} else {
+	signer := ethtypes.NewLondonSigner(cid)
+	switch o.Env {
+	case "", "dynamic-fee":
 		inner = &ethtypes.DynamicFeeTx{ChainID: cid, Nonce: o.Nonce, GasTipCap: big.NewInt(1_000_000_000), GasFeeCap: big.NewInt(30_000_000_000), Gas: 3_000_000, To: o.To, Value: new(big.Int), Data: data}
+	case "legacy":
+		inner = &ethtypes.LegacyTx{Nonce: o.Nonce, GasPrice: big.NewInt(30_000_000_000), Gas: 3_000_000, To: o.To, Value: new(big.Int), Data: data}
+	case "access-list":
+		inner = &ethtypes.AccessListTx{ChainID: cid, Nonce: o.Nonce, GasPrice: big.NewInt(30_000_000_000), Gas: 3_000_000, To: o.To, Value: new(big.Int), Data: data,
+			AccessList: ethtypes.AccessList{{Address: ethcommon.HexToAddress("0x00000000000000000000000000000000000000a1"), StorageKeys: []ethcommon.Hash{{1}}}}}
+	case "blob", "blob-with-sidecar":
+		if o.To == nil {
+			panic("a blob transaction cannot create a contract")
+		}
+		signer = ethtypes.NewCancunSigner(cid)
+		// one (all-zero) blob; commitment and proof are not checked when a transaction is decoded
+		sc := &ethtypes.BlobTxSidecar{Blobs: make([]kzg4844.Blob, 1), Commitments: make([]kzg4844.Commitment, 1), Proofs: make([]kzg4844.Proof, 1)}
+		b := &ethtypes.BlobTx{ChainID: uint256.NewInt(uint64(o.ChainID)), Nonce: o.Nonce, GasTipCap: uint256.NewInt(1_000_000_000), GasFeeCap: uint256.NewInt(30_000_000_000), Gas: 3_000_000,
+			To: *o.To, Value: uint256.NewInt(0), Data: data, BlobFeeCap: uint256.NewInt(1_000_000_000), BlobHashes: sc.BlobHashes()}
+		if o.Env == "blob-with-sidecar" {
+			b.Sidecar = sc
+		}
+		inner = b
+	default:
+		panic("envelope " + o.Env)
 	}
-	tx, err := ethtypes.SignNewTx(o.Signer.Eth, ethtypes.NewLondonSigner(cid), inner)
+	tx, err := ethtypes.SignNewTx(o.Signer.Eth, signer, inner)
 	must(err)
 	return tx
 }
